@@ -24,6 +24,9 @@ type resultReceiver interface {
 	close()
 	reset()
 	needMore() bool
+	// restartable tells whether the scan feeding this receiver may start over after an error:
+	// not once a part of the result has left the receiver
+	restartable() bool
 
 	// MapReduce
 	fork() resultReceiver
@@ -50,6 +53,10 @@ func (e *emptyResultReceiver) close() {
 
 func (e *emptyResultReceiver) reset() {
 	// do nothing
+}
+
+func (e *emptyResultReceiver) restartable() bool {
+	return true
 }
 
 func (e *emptyResultReceiver) fork() resultReceiver {
@@ -98,6 +105,10 @@ func (c *commonResultReceiver) append(key, value []byte, revision uint64) {
 	})
 }
 
+func (c *commonResultReceiver) restartable() bool {
+	return true
+}
+
 func (c *commonResultReceiver) reset() {
 	c.result = make([]*proto.KeyValue, 0, len(c.result))
 }
@@ -107,6 +118,8 @@ type streamResultReceiver struct {
 	readRev uint64
 	stream  chan *proto.StreamRangeResponse
 	batch   []*proto.KeyValue
+	// sent is set once a batch has been handed to the stream
+	sent bool
 }
 
 func newStreamReceiver(readRev uint64, stream chan *proto.StreamRangeResponse) *streamResultReceiver {
@@ -134,6 +147,7 @@ func (e *streamResultReceiver) append(key, value []byte, revision uint64) {
 			},
 		}
 		e.stream <- resp
+		e.sent = true
 	}
 }
 
@@ -153,6 +167,12 @@ func (e *streamResultReceiver) flush() {
 
 func (e *streamResultReceiver) close() {
 	e.flush()
+}
+
+// restartable: batches that are already on the stream cannot be taken back, a scan that started
+// over would send their key-values a second time
+func (e *streamResultReceiver) restartable() bool {
+	return !e.sent
 }
 
 func (e *streamResultReceiver) reset() {
